@@ -57,6 +57,7 @@ import (
 	"sync/atomic"
 	"time"
 
+	"deps.dev/util/resolve/dep"
 	scalog "github.com/google/osv-scalibr/log"
 	"verif/ev"
 )
@@ -108,7 +109,8 @@ var (
 	npmCases    atomic.Int64
 	pomCases    atomic.Int64
 	noopCases   atomic.Int64
-	errExamples = make(chan string, 4)
+	errMu       sync.Mutex
+	errEx       []string
 )
 
 func newCaseDir() string {
@@ -185,10 +187,13 @@ func execute(r *ev.Run, cs *caseSpec, run func() outcome) {
 	}
 	if o.writeErr != "" {
 		writeErrs.Add(1)
-		select {
-		case errExamples <- fmt.Sprintf("%s %v: %s", cs.Kind, cs.Updates, o.writeErr):
-		default:
+		errMu.Lock() // keep the 4 lexicographically smallest examples (deterministic)
+		errEx = append(errEx, fmt.Sprintf("%s %s: %s", cs.Kind, fmtUpdates(cs.Updates), o.writeErr))
+		sort.Strings(errEx)
+		if len(errEx) > 4 {
+			errEx = errEx[:4]
 		}
+		errMu.Unlock()
 	}
 	if o.changed {
 		r.Distinct(caseKey(cs))
@@ -201,8 +206,37 @@ func execute(r *ev.Run, cs *caseSpec, run func() outcome) {
 		seen[d.Key] = true
 		r.Violation(d.Key, d.What+" | updates="+fmtUpdates(cs.Updates)+" main="+cs.Main, cs)
 	}
-	if len(o.discs) == 0 && o.changed && r.SampleN() < 6 && (r.Evals.Load()%997 == 1 || r.SampleN() == 0) {
-		r.Sample(map[string]any{"kind": cs.Kind, "main": cs.Main, "input": cs.Files[cs.Main], "updates": cs.Updates, "verdict": "output = input with exactly the requested requirements substituted"})
+}
+
+// recordSamples executes six fixed cases (first, middle and last document of each kind, first
+// single update) on the main goroutine and writes them out as the evidence samples.
+func recordSamples(r *ev.Run, npmDocs []*npmDoc, pomDocs []*pomDoc) {
+	pick := func(n int) []int {
+		if n == 0 {
+			return nil
+		}
+		return []int{0, n / 2, n - 1}
+	}
+	for _, i := range pick(len(npmDocs)) {
+		files := map[string]string{"package.json": npmDocs[i].render()}
+		reqs, err := npmReadReqs(files)
+		if err != nil || len(reqs) == 0 {
+			continue
+		}
+		ka, _ := reqs[0].Type.GetAttr(dep.KnownAs)
+		cs := &caseSpec{Kind: "npm", Files: files, Main: "package.json", Family: npmDocs[i].Family, Updates: []updSpec{{Name: reqs[0].Name, KnownAs: ka, To: npmTargets[0]}}}
+		o := runCase(cs)
+		r.Sample(map[string]any{"kind": "npm", "family": cs.Family, "input": files["package.json"], "updates": cs.Updates, "discrepancies": len(o.discs), "write_error": o.writeErr})
+	}
+	for _, i := range pick(len(pomDocs)) {
+		files, chain := pomDocs[i].Opt.render()
+		m, err := buildPomModel(files, chain)
+		if err != nil || len(m.deps) == 0 {
+			continue
+		}
+		cs := &caseSpec{Kind: "pom", Files: files, Main: chain[0], Chain: chain, Family: pomDocs[i].Family, Updates: []updSpec{{Name: m.deps[len(m.deps)-1].name(), To: pomTargets[0]}}}
+		o := runCase(cs)
+		r.Sample(map[string]any{"kind": "pom", "family": cs.Family, "options": fmt.Sprintf("%+v", pomDocs[i].Opt), "files": chain, "updates": cs.Updates, "discrepancies": len(o.discs), "write_error": o.writeErr})
 	}
 }
 
@@ -280,7 +314,7 @@ func main() {
 		defer pprof.StopCPUProfile()
 		stopProf = pprof.StopCPUProfile
 	}
-	r := ev.Start("C13", "exploration", 150*time.Second, 27*time.Minute)
+	r := ev.Start("C13", "exploration", 165*time.Second, 27*time.Minute)
 
 	npmDocs := genNpmDocs(r.Thorough())
 	pomDocs := genPomDocs(r.Thorough())
@@ -317,6 +351,7 @@ func main() {
 		}
 		items = append(items[k:], items[:k]...)
 	}
+	recordSamples(r, npmDocs, pomDocs)
 	done := r.ParallelFor(len(items), func(i int) {
 		it := items[i]
 		if it.npm != nil {
@@ -334,13 +369,7 @@ func main() {
 	fams := map[string]int64{}
 	famCount.Range(func(k, v any) bool { fams[k.(string)] = v.(*atomic.Int64).Load(); return true })
 	r.Set("cases_per_family", fams)
-	close(errExamples)
-	var exs []string
-	for e := range errExamples {
-		exs = append(exs, e)
-	}
-	sort.Strings(exs)
-	r.Set("write_error_examples", exs)
+	r.Set("write_error_examples", append([]string{}, errEx...))
 	r.Assume("a Write that returns a non-nil error is accepted (the property forbids only silent non-application)")
 	r.Assume("each groupId:artifactId is declared once per generated pom.xml family; updates never target the <parent> reference")
 	r.Assume("Maven registry is never contacted: only local parents are generated")
